@@ -531,3 +531,10 @@ def run(ctx):
     # … and the λ coordinate reaches the quantile routine as read (a clamp in the wrapper makes λ constant on part of its coordinate's range)
     from .c12 import wrapper_forwards
     wrapper_forwards(ctx, R, "C14-k")
+
+    # λ (and every other quantity drawn from a coordinate) is a function of that coordinate alone: no per-thread / per-process state may
+    # enter (a warm start of the quantile iteration from the previous call's root makes λ depend on the previous point).  Restated from
+    # C17-c / C17-d.
+    from .restate import run_restated
+    run_restated(ctx, [("C17", {"C17-c": "no static mut / thread_local / non-Freeze static in the crate",
+                                "C17-d": "no ambient-state callee reachable from the sampling entries"})])
